@@ -11,60 +11,10 @@ From Verif Require Kernels.
 Import ListNotations.
 Open Scope Z_scope.
 
-(* the modelled validator (if any) that decides this argument tuple *)
-Inductive mcase :=
-| MNone
-| MAxis (a ndim : Z)
-| MAxes (axes : list Z) (ndim : Z)
-| MPerm (axes : list Z) (ndim : Z)
-| MIndex (i dim : Z)
-| MReshape (size : Z) (sh : list Z)
-| MBroadcast (s1 s2 : list Z)
-| MBroadcastTo (s target : list Z)
-| MContract (ea eb : list Z)
-| MCooInit (ndata ncols nshape nrows : Z)
-| MCaxes (ndim : Z) (ca : option (list Z))
-| MDot1d (la lb : Z).
-
-Definition verdict {A} (r : res A) : option exc := match r with Ok _ => None | Raise e => Some e end.
-
-(* None: not modelled; Some None: the validator accepts; Some (Some e): it raises e *)
-Definition model_verdict (m : mcase) : option (option exc) :=
-  match m with
-  | MNone => None
-  | MAxis a nd => Some (verdict (v_normalize_axis a nd))
-  | MAxes ax nd => Some (verdict (v_normalize_axes ax nd))
-  | MPerm ax nd => Some (verdict (v_transpose_axes ax nd))
-  | MIndex i d => Some (verdict (v_check_index i d))
-  | MReshape s sh => Some (verdict (v_reshape_check s sh))
-  | MBroadcast a b => Some (verdict (v_broadcast_shape false a b))
-  | MBroadcastTo a b => Some (verdict (v_broadcast_shape true a b))
-  | MContract a b => Some (verdict (v_tensordot_check a b))
-  | MCooInit a b c d => Some (verdict (v_coo_init a b c d))
-  | MCaxes nd ca => Some (verdict (v_check_caxes nd ca))
-  | MDot1d a b => Some (verdict (v_dot_1d_check a b))
-  end.
-
-(* the Spec's verdict for the same argument (true = NumPy accepts); the theorems of Props/C18.v say
-   it coincides with the model's except for MBroadcastTo with more axes than the target *)
+(* the modelled operation (Model/Validators.v: vop, model_verdict, vop_np_accepts, clean) *)
+Definition mcase := vop.
 Definition spec_accepts (m : mcase) : option bool :=
-  match m with
-  | MNone => None
-  | MAxis a nd => Some (np_axis_ok a nd)
-  | MAxes ax nd => Some (forallb (fun a => np_axis_ok a nd) ax)
-  | MPerm ax nd => Some (np_perm_ok ax nd)
-  | MIndex i d => Some (np_index_ok i d)
-  | MReshape s sh => Some (np_reshape_ok s sh)
-  | MBroadcast a b => Some (match np_broadcast a b with Some _ => true | None => false end)
-  | MBroadcastTo a b => Some (match np_broadcast_to a b with Some _ => true | None => false end)
-  | MContract a b => Some (np_contract_ok a b)
-  | MCooInit a b c d => Some (negb (negb (c =? 0) && (negb (a =? b) || negb (c =? d))))
-  | MCaxes nd ca => Some (caxes_ok nd ca)
-  | MDot1d a b => Some (a =? b)
-  end.
-
-Definition clean (e : exc) : bool :=
-  match e with ValueError | IndexError | TypeError => true | _ => false end.
+  match m with MNone => None | _ => Some (vop_np_accepts m) end.
 
 (* (oracle, expected shape, expected flat, allowed limitation, modelled validator, status, result)
    oracle: 0 = rejects, 1 = accepts and the dense value is given, 2 = accepts, value not compared
@@ -122,7 +72,11 @@ Inductive kcase :=
 | KSlicing (row col : list Z) (start : Z) (out : list (Z * Z))
 | KMatch (a b : list Z) (out : list (Z * Z))
 | KMaskPairs (pairs : list (Z * Z)) (c ps : list Z) (out : list (Z * Z))
-| KSearch (rgt : bool) (a : list Z) (v : Z) (out : Z).
+| KSearch (rgt : bool) (a : list Z) (v : Z) (out : Z)
+| KDotCsrCsr (ai ad ap bi bd bp : list Z) (n_row n_col : Z) (out : list Z * list Z * list Z)
+| KDotCscNd (ai ad ap : list Z) (b : list (list Z)) (a_rows bK bC : Z) (out : list Z * list Z * list Z)
+| KUncompress (indptr : list Z) (out : list Z)
+| KLinearize (xs shape order rshape cshape : list Z) (out : list Z * list Z * list Z).
 
 Definition pair_eqb (x y : Z * Z) : bool := (fst x =? fst y) && (snd x =? snd y).
 Definition triple_eqb (x y : Z * Z * Z) : bool :=
@@ -135,6 +89,9 @@ Definition kcmp {A} (eqb : A -> A -> bool) (r : Kernels.kres A) (out : A) : Z :=
   | Kernels.OutOfBounds => 3
   | Kernels.DivZero => 4
   end.
+
+Definition triple3_eqb (x y : list Z * list Z * list Z) : bool :=
+  let '(a, b, c) := x in let '(d, e, f) := y in zl_eqb a d && zl_eqb b e && zl_eqb c f.
 
 Definition nat_of (z : Z) : nat := Z.to_nat z.
 
@@ -162,4 +119,11 @@ Definition judge_kernel (c : Z * kcase) : Z :=
     kcmp (list_eqb pair_eqb) (Kernels.get_mask_pairs (nat_of (Kernels.zlen c + 1)) pairs c ps []) out
   | KSearch rgt a v out =>
     kcmp Z.eqb (Kernels.searchsorted rgt (nat_of (Kernels.zlen a + 1)) a v) out
+  | KDotCsrCsr ai ad ap bi bd bp n_row n_col out =>
+    kcmp triple3_eqb (Kernels.dot_csr_csr ai ad ap bi bd bp n_row n_col) out
+  | KDotCscNd ai ad ap b a_rows bK bC out =>
+    kcmp triple3_eqb (Kernels.dot_csc_ndarray_sparse ai ad ap b a_rows bK bC) out
+  | KUncompress indptr out => kcmp zl_eqb (Kernels.uncompress_dimension indptr) out
+  | KLinearize xs shape order rshape cshape out =>
+    kcmp triple3_eqb (Kernels.linearize (nat_of (Z.max 2 (Kernels.zlen shape))) xs shape order rshape cshape) out
   end.
